@@ -104,6 +104,22 @@ func H_C08_server_policy() {
 	} else {
 		vReach("plaintext")
 	}
+	// what the server told the client: its last write is ENCRYPT(VC, crypto_select, len(padD) = 0)
+	// under the sending key (the fourth digest it derives: keyB), after the 1024 discarded bytes.
+	// The mode the server continues in is the one it announced - the client's side of the
+	// agreement is H_C07_client_glued's "the client continues in the mode it was told".
+	ref, _ := rc4.NewCipher(vHashOut[3])
+	ks := make([]byte, 1024+14)
+	ref.XORKeyStream(ks, ks)
+	vAssert(len(c.out) >= 96+14, "the server has sent its public key and its crypto reply")
+	r := len(c.out) - 14
+	k := vInt("k")
+	if k >= 0 && k < 8 {
+		vAssert(c.out[r+k]^ks[1024+k] == 0, "the crypto reply starts with the encrypted VC")
+	}
+	sel := c.out[r+11] ^ ks[1024+11]
+	vAssert(c.out[r+8]^ks[1024+8] == 0 && c.out[r+9]^ks[1024+9] == 0 && c.out[r+10]^ks[1024+10] == 0, "crypto_select is 1 or 2 (high bytes zero)")
+	vAssert(encrypted == (sel == 2) && !encrypted == (sel == 1), "the server continues in exactly the mode it announced to the client")
 }
 
 // H_C08_client_policy: the MSE client against an ARBITRARY server byte stream.
@@ -208,4 +224,10 @@ func H_C07_client_glued() {
 	x0 := vCipherPos(ec.dec) - len(buf)
 	vAssert(x0 >= 1024+14, "the receiving cipher has skipped 1024 bytes and decrypted the crypto reply")
 	vAssert(buf[j] == in[o0+j]^ks[x0+j], "RC4 mode: glued bytes are decrypted, each at its keystream position")
+	// the mode is the one the server announced: crypto_select sits 6+len(padD) bytes before the
+	// glued bytes, at keystream position 1024+8..1024+12
+	padD := x0 - (1024 + 14)
+	if o0-padD-6 >= 96 {
+		vAssert(in[o0-padD-6+3]^ks[1024+11] == 2, "the client continues encrypted only if the server selected RC4")
+	}
 }
